@@ -110,9 +110,11 @@ def listValue (g : Store) (v : Val) : List Elem :=
 
 /-! ## depth_first_search -/
 
-/-- The overlay loop: `for k, v in parent.items(): if k in INHERITABLE_ATTRS and k not in props: props[k] = v`. -/
+/-- The overlay loop `for k, v in parent.items(): if <overlay_cond>: props[k] = v` (the test is the
+regenerated `overlay_cond`; keys of `parent` are distinct, so testing against the original `props`
+is the same as testing against the dictionary being updated). -/
 def overlay (parent props : Dict) : Dict :=
-  props ++ parent.filter (fun kv => INHERITABLE_ATTRS.contains kv.1 && (dget props kv.1).isNone)
+  props ++ parent.filter (fun kv => overlay_cond (INHERITABLE_ATTRS.contains kv.1) (dget props kv.1).isSome)
 
 /-- `object_properties.get("Type")`, falling back to `"type"` (settings.STRICT is False). -/
 def nodeType (d : Dict) : Option Val :=
@@ -289,13 +291,13 @@ def createPages (g : Store) (ids : List Nat) (fuel : Nat) (catalog : Dict) : Lis
 
 /-- The loop of `PDFPage.get_pages` over the generator `create_pages` (its pages and the exception
 that is raised when it is asked for one more), from page index `i` on:
-`if not pagenos or pageno in pagenos: yield page;  if maxpages and maxpages <= pageno + 1: break`.
+`if <select_yield>: yield page;  if <select_break>: break` (both tests regenerated from the source).
 The pending exception is met only if the loop asks for a page beyond the last one. -/
 def getPagesS {α : Type} (sel : List Nat) (maxpages : Nat) : Nat → List α → Option Err → List α × Option Err
   | _, [], e => ([], e)
   | i, p :: ps, e =>
-    let out := if sel.isEmpty || sel.contains i then [p] else []
-    if maxpages != 0 && maxpages ≤ i + 1 then (out, none)
+    let out := if select_yield (!sel.isEmpty) (sel.contains i) then [p] else []
+    if select_break (maxpages : Int) (i : Int) then (out, none)
     else
       let r := getPagesS sel maxpages (i + 1) ps e
       (out ++ r.1, r.2)
